@@ -18,7 +18,7 @@ MANIFEST = {
  'technique': 'Lean 4 proof (case analysis on exception flow + the C11 invariant) + table extraction + differential correspondence at three levels',
  'design_ref': 'DESIGN.md §6 C07',
 }
-THEOREMS = ['C07.firewall_tables_ok', 'C07.firewall_total', 'C07.plugin_hooks_wrapped', 'C07.feedMsg_total',
+THEOREMS = ['C07.firewall_tables_ok', 'C07.firewall_total', 'C07.plugin_hooks_wrapped', 'C07.all_plugin_hooks_firewalled', 'C07.feedMsg_total',
             'C07.callbacks_all_run', 'C07.outFilter_exception_keeps_message', 'C07.takeMsg_total',
             'C07.isupport_never_deafens', 'C07.no_escape', 'C07.read_never_raises', 'C07.driver_never_removed', 'C07.later_ping_answered',
             'C07.liveB_pingAnswered']
@@ -272,6 +272,112 @@ def l2_cases(b, r, n):
         lines.append('take\t%s' % (','.join(outf) or '~'))
     return cases, lines
 
+# ---------------------------------------------------------------- L1c: the real plugin classes
+def real_class_cases(b):
+    """for every class of every importable bundled plugin that derives from IrcCallback: which of the hooks defined in its
+    body did the metaclass really wrap — against the model's MetaFirewall on the maps found along the real MRO"""
+    import warnings
+    irclib = b.irclib; log = b.log
+    cases = []; lines = []
+    def show(m): return ','.join('%s:%d' % (a, int(h)) for a, h in m) if m else '-'
+    def own_map(c):
+        fm = c.__dict__.get('__firewalled__')
+        if fm is None: return None
+        if isinstance(fm, dict): return [(k, v is not None) for k, v in fm.items()]
+        return [(k, False) for k in fm]
+    def is_wrapped(fn, depth=0):
+        # log.firewall returns its inner function `m` (renamed): recognisable by its code object; other metaclasses
+        # (MetaSynchronized) may wrap it once more: look through closures
+        code = getattr(fn, '__code__', None)
+        if code is not None and code.co_filename.endswith('log.py') and 'errorHandler' in code.co_freevars:
+            return True
+        if depth < 3:
+            for cell in (getattr(fn, '__closure__', None) or ()):
+                try:
+                    v = cell.cell_contents
+                except ValueError:
+                    continue
+                if callable(v) and is_wrapped(v, depth + 1):
+                    return True
+        return False
+    names = sorted(d for d in os.listdir('/repo/plugins') if os.path.isdir('/repo/plugins/' + d) and d[0].isupper())
+    seen = set()
+    for n in names:
+        try:
+            with warnings.catch_warnings():
+                warnings.simplefilter('ignore')
+                mod = b.plugin.loadPluginModule(n)
+        except Exception:
+            continue
+        pm = getattr(mod, 'plugin', mod)
+        for cname, cls in sorted(vars(pm).items()):
+            if not (isinstance(cls, type) and issubclass(cls, irclib.IrcCallback)) or cls.__module__ != pm.__name__ or cls in seen:
+                continue
+            seen.add(cls)
+            hooknames = set()
+            for anc in cls.__mro__:
+                m = own_map(anc)
+                if m: hooknames |= set(k for k, _ in m)
+            defined = sorted(a for a in cls.__dict__ if a in hooknames and callable(cls.__dict__[a]))
+            if not defined: continue
+            got = sorted(a for a in defined if is_wrapped(cls.__dict__[a]))
+            anc = []
+            for base in cls.__bases__:
+                maps = [own_map(c) for c in reversed(base.__mro__)]
+                anc.append('|'.join(show(m) for m in maps if m is not None) or '-')
+            own = own_map(cls) or []
+            ok = got == defined
+            cases.append(Case({'l1': 'real-class', 'plugin': n, 'class': cname, 'hooks': defined},
+                              impl=','.join(got) or '-', oracle_ok=ok, kind='L1-plugin-classes', tags=('plugin-hooks',),
+                              oracle_msg='' if ok else 'plugin class %s.%s: hooks %r are not firewalled (defined %r)' % (n, cname, sorted(set(defined) - set(got)), defined)))
+            lines.append('meta\t%s\t%s\t%s' % (';'.join(anc) if anc else '~', show(own), ','.join(defined)))
+    return cases, lines
+
+def handler_arity():
+    """for every do<Command> handler of Irc, IrcState and the bundled plugins: the largest constant index of msg.args it reads
+    (or the length it unpacks) — the hostile stream sends each command with fewer arguments than that"""
+    import ast, warnings
+    out = {}
+    files = ['/repo/src/irclib.py'] + sorted('/repo/plugins/%s/plugin.py' % d for d in os.listdir('/repo/plugins') if os.path.isfile('/repo/plugins/%s/plugin.py' % d))
+    for f in files:
+        try:
+            with warnings.catch_warnings():
+                warnings.simplefilter('ignore')
+                tree = ast.parse(open(f, encoding='utf-8').read())
+        except (OSError, SyntaxError):
+            continue
+        for fn in ast.walk(tree):
+            if isinstance(fn, ast.FunctionDef) and fn.name.startswith('do') and len(fn.name) > 2 and (fn.name[2].isupper() or fn.name[2].isdigit()):
+                mx = -1
+                for n in ast.walk(fn):
+                    if isinstance(n, ast.Subscript) and isinstance(n.value, ast.Attribute) and n.value.attr == 'args' \
+                            and isinstance(n.value.value, ast.Name) and n.value.value.id == 'msg':
+                        sl = n.slice
+                        if isinstance(sl, ast.Constant) and isinstance(sl.value, int) and sl.value >= 0:
+                            mx = max(mx, sl.value)
+                        elif isinstance(sl, ast.Slice) and isinstance(sl.lower, ast.Constant) and isinstance(sl.lower.value, int):
+                            mx = max(mx, sl.lower.value)
+                    if isinstance(n, ast.Assign) and isinstance(n.value, ast.Attribute) and n.value.attr == 'args' and isinstance(n.targets[0], ast.Tuple):
+                        mx = max(mx, len(n.targets[0].elts) - 1)
+                cmd = fn.name[2:].upper()
+                out[cmd] = max(out.get(cmd, -1), mx)
+    return out
+
+_ARITY = None
+def arity_line(r):
+    """a line for a command that has a handler, with fewer / exactly as many / more arguments than the handler reads"""
+    global _ARITY
+    if _ARITY is None:
+        _ARITY = sorted(handler_arity().items())
+    cmd, mx = r.choice(_ARITY)
+    n = r.choice([0, max(0, mx), max(0, mx), mx + 1, mx + 2, r.randint(0, mx + 2)])
+    args = [r.choice(WORDS + FMT).replace(' ', '_') or '*' for _ in range(n)]
+    pfx = r.choice(['', ':srv ', ':n!u@h ', ':test!u@h '])
+    line = pfx + cmd
+    for a in args[:-1]: line += ' ' + a.lstrip(':')
+    if args: line += (' :' if r.random() < 0.5 else ' ') + args[-1]
+    return line.encode('utf-8', 'replace')
+
 # ---------------------------------------------------------------- L2b: ISUPPORT tokens vs the per-message channel test
 def isup_cases(b, r, n):
     irc = b.irclib.Irc('test')
@@ -406,6 +512,8 @@ TARGETED = ['ERROR :Closing link: (flood)', 'ERROR :Trying to reconnect too fast
             ':n!u@h JOIN', ':n!u@h PART', ':n!u@h KICK #c', ':n!u@h MODE #c +o', ':n!u@h MODE', 'BATCH', 'BATCH +', 'BATCH -nope', '@batch=nope :n!u@h PRIVMSG #c :x',
             ':n!u@h PRIVMSG', ':n!u@h PRIVMSG test', ':n!u@h PRIVMSG test :\x01', ':n!u@h PRIVMSG test :\x01PING', ':n!u@h PRIVMSG test :\x01VERSION\x01', ':n!u@h TOPIC #c', 'PONG']
 def gen_hostile_line(r):
+    if r.random() < 0.25:
+        return arity_line(r)
     k = r.randint(0, 14)
     pfx = r.choice(['', ':srv ', ':n!u@h ', ':test!u@h ', ':test ', ': ', ':\x00 ', ':n!u@h!x '])
     words = WORDS + FMT + FMT
@@ -573,6 +681,7 @@ def explore(rig, stream, n1, n2, n3):
     c, l = l1_meta_cases(r, n1 // 2); groups.append((c, l, canon_meta))
     c, l = l2_cases(rig.b, r, n2); groups.append((c, l, lambda o: 'None' if o == 'dropped' else o))
     c, l = isup_cases(rig.b, r, n2); groups.append((c, l, None))
+    c, l = real_class_cases(rig.b); groups.append((c, l, lambda o: '-' if o == '-' else ','.join(sorted(x.split(':')[0] for x in o.split(',')))))
     c3, ml, spans = l3_cases(rig, r, n3)
     return groups, (c3, ml, spans)
 
